@@ -124,6 +124,7 @@ CONF = {
     "rule": "segments of recorded real-code executions (one per script / fit-grid cell / random history); distinct by content "
             "hash, non-trivial = at least one checked event after the reset",
     "assumptions": [
+        "rAssume / rForget are the real Plugin.Reserve / Plugin.Unreserve of the reserve pod over a reservation lister that mirrors the informer store (the direct cache call is used only when the lister's object is not the one the event describes, e.g. TLC-generated scripts without an add)",
         "'exists' / 'currently assigned' are read at the cache's entry points: a reservation exists from updateReservation "
         "(informer add / update of an active object, assume of the reserve pod) until DeleteReservation; a pod is assigned by "
         "assumePod, or by the informer add-update of a bound, running pod carrying the reservation-allocated annotation of the "
